@@ -1206,8 +1206,16 @@ class Interp:
                 yield None, s
                 continue
             conds = []
+            bad = False
             for i, op in enumerate(node.ops):
+                if isinstance(op, (ast.Lt, ast.LtE, ast.Gt, ast.GtE)) and \
+                        (vals[i] == NONE or vals[i + 1] == NONE):
+                    bad = True      # ordering comparison with None raises TypeError
                 conds.append(self.compare(op, vals[i], vals[i + 1]))
+            if bad:
+                yield None, s.raising('TypeError').note(('none-deref', 'ordering comparison',
+                                                         node.lineno))
+                continue
             yield (conds[0] if len(conds) == 1 else AndC(tuple(conds))), s
 
     def compare(self, op, a, b):
@@ -1801,6 +1809,13 @@ def fold_cond(c):
         return None if t is None else not t
     if isinstance(c, Cmp):
         a, b = c.a, c.b
+        if c.op == 'is':
+            if isinstance(a, Const) and isinstance(b, Const):
+                return a.v is b.v
+            if (isinstance(a, Const) and isinstance(b, (Sym, Str, Tup, DictV))) or \
+                    (isinstance(b, Const) and isinstance(a, (Sym, Str, Tup, DictV))):
+                return False
+            return None
         if isinstance(a, Sym) and isinstance(b, Sym):
             d = a - b
             if d.is_const():
